@@ -11,6 +11,7 @@ package verifsync
 
 import (
 	"fmt"
+	"reflect"
 	"runtime/debug"
 	rsync "sync"
 	ratomic "sync/atomic"
@@ -43,10 +44,12 @@ const (
 	OpWait
 	OpAdd
 	OpTryLock
+	OpChanSend
+	OpChanRecv
 	nOpKinds
 )
 
-var opNames = [...]string{"start", "lock", "unlock", "rlock", "runlock", "load", "store", "cas", "swap", "poolget", "poolput", "once", "step", "park", "hook", "wait", "add", "trylock"}
+var opNames = [...]string{"start", "lock", "unlock", "rlock", "runlock", "load", "store", "cas", "swap", "poolget", "poolput", "once", "step", "park", "hook", "wait", "add", "trylock", "chansend", "chanrecv"}
 
 func (k OpKind) String() string { return opNames[k] }
 
@@ -82,6 +85,8 @@ type thread struct {
 	spinSet  []spinEnt
 	spinCnt  int
 	spinning bool
+	// pendReady: for a pending channel operation, whether it can proceed without blocking
+	pendReady func() bool
 }
 
 type spinEnt struct {
@@ -207,6 +212,8 @@ func (s *Sched) enabled(t *thread) bool {
 		return !t.pendObj.held
 	case OpPark:
 		return t.parked.open
+	case OpChanSend, OpChanRecv:
+		return t.pendReady == nil || t.pendReady()
 	}
 	return true
 }
@@ -482,6 +489,69 @@ func (g *Gate) Park() {
 		t.parked = g
 		s.point(OpPark, nil, "")
 	}
+}
+
+// ---------------------------------------------------------------------------------------------
+// Channel operations of the code under test (the overlay generator rewrites `ch <- v`, `<-ch` and
+// `close(ch)` outside select statements into these calls). A send or receive on a buffered channel is
+// a scheduling point at which the thread is enabled only if the operation can proceed; a thread
+// that can never proceed shows up as blocked in the deadlock report. Unbuffered channels and select
+// statements are not modelled: meeting one under exploration ends the run as a machinery error.
+// ---------------------------------------------------------------------------------------------
+
+func (s *Sched) chanPoint(kind OpKind, ready func() bool) {
+	t := s.running
+	t.pendReady = ready
+	s.point(kind, nil, "chan")
+	t.pendReady = nil
+}
+
+func (s *Sched) unbuffered() {
+	if s.Diverged == "" {
+		s.Diverged = "operation on an unbuffered channel under exploration: not modelled"
+	}
+}
+
+var closedChans = map[uintptr]bool{}
+
+// ChanSend replaces `ch <- v`.
+func ChanSend[C interface{ ~chan T | ~chan<- T }, T any](ch C, v T) {
+	if s := cur; s != nil && s.exploring && !s.aborted {
+		if cap(ch) == 0 {
+			s.unbuffered()
+		} else {
+			s.chanPoint(OpChanSend, func() bool { return len(ch) < cap(ch) })
+		}
+	}
+	ch <- v
+}
+
+// ChanRecv replaces `<-ch`.
+func ChanRecv[C interface{ ~chan T | ~<-chan T }, T any](ch C) T {
+	v, _ := ChanRecv2[C, T](ch)
+	return v
+}
+
+// ChanRecv2 replaces `v, ok := <-ch`.
+func ChanRecv2[C interface{ ~chan T | ~<-chan T }, T any](ch C) (T, bool) {
+	if s := cur; s != nil && s.exploring && !s.aborted {
+		if cap(ch) == 0 {
+			s.unbuffered()
+		} else {
+			p := reflect.ValueOf(ch).Pointer()
+			s.chanPoint(OpChanRecv, func() bool { return len(ch) > 0 || closedChans[p] })
+		}
+	}
+	v, ok := <-ch
+	return v, ok
+}
+
+// ChanClose replaces `close(ch)`.
+func ChanClose[C interface{ ~chan T | ~chan<- T }, T any](ch C) {
+	if cur != nil {
+		closedChans[reflect.ValueOf(ch).Pointer()] = true
+	}
+	close(ch)
 }
 
 // Open opens the gate (not itself a scheduling point).
